@@ -21,18 +21,23 @@
      - C05_consistent_cannot_fail: for every graph the model returns (any cover oracle) pytenet's own is_consistent never
        answers False, at any fuel (the code's final [assert graph.is_consistent()] cannot fail): cross references, sorted
        opics, clean terminals and an explicit level function (every edge goes up exactly one level), Proofs/FromOpchainsCons.v;
-     - C05_from_opchains_total_partial: the headline — wf chains, model cover, no cover hypothesis: Ok g, linked,
-       consistency check cannot fail, den g = chain sum.
-   NOT PROVED (validated on every generated case by the correspondence check, evaluated in Coq):
-     - glength g = Some L (the level function is there; missing: every non-final node on the first-out-edge path has an
-       out-edge, which needs "every frontier node owns a half-chain" through the site loop);
-     - that node charges along every path are the chain's interleaved charges (the charge assertions of the code are
-       modelled and proved never to fire under wf_chains: part of C05_from_opchains_ok_partial). *)
+     - C05_glength: every returned graph (any cover oracle) has glength g = Some L: following first out-edges from the start
+       node reaches the end node after exactly L steps, within the model's fuel (Proofs/FromOpchainsLen.v: partition converse,
+       consumed edge => out-edge at u_nidl, every new node owns a next entry, node count);
+     - C05_from_opchains_total: the headline -- wf chains, model cover, no cover hypothesis: Ok g, linked, consistency check
+       cannot fail, glength g = Some L, den g = chain sum  (C05_from_opchains_total_partial: the same without the length).
+     - C05_edge_charges (clause (c), bond quantum numbers): every edge of every returned graph (any cover oracle) carries exactly
+       one operator, the operator oids[k] of some non-zero identity-padded chain at some position k < L, and its two end nodes
+       carry that chain's interleaved charges qnums[k], qnums[k+1] (Proofs/FromOpchainsQ.v: every half-chain in flight after t
+       sites is the t-suffix of a padded chain; per site the U-node's (qnum0, qnum1) are the charges of the edge's end nodes --
+       the code's own asserts, made global).  Since every start->end path has L edges on levels 0..L-1 (level function of
+       C05_consistent_cannot_fail) this fixes the charge of every node of every path edge by edge; NOT stated: that the witness
+       chain is the same for all edges of one path (false in general: paths of a compressed graph mix chains that share charges). *)
 From Coq Require Import ZArith List Bool Lia Sorted.
 From PT Require Import Base.Scalar Base.BigSum Base.Mx Model.OpGraph Model.Tensor Model.FromOpchains Model.GraphMPO
                        Proofs.FromOpchainsPart Proofs.GraphMPOSem Proofs.DenRev_C05 Proofs.PampDen_C05
                        Proofs.FromOpchainsThm Proofs.C05Final Proofs.FromOpchainsOk3 Proofs.FromOpchainsCover
-                       Proofs.FromOpchainsWF3 Proofs.FromOpchainsCons Proofs.C05Total.
+                       Proofs.FromOpchainsWF3 Proofs.FromOpchainsCons Proofs.C05Total Proofs.FromOpchainsLen Proofs.C05Len Proofs.FromOpchainsQ.
 Import ListNotations.
 Open Scope Z_scope.
 
@@ -86,7 +91,7 @@ Theorem C05_consistent_cannot_fail : forall (R : cring) cover (chains : list (ch
 Proof. exact from_opchains_consistent. Qed.
 Print Assumptions C05_consistent_cannot_fail.
 
-(* headline (glength g = Some L still missing, hence _partial): no hypothesis on covers *)
+(* headline without the length clause (kept; superseded by C05_from_opchains_total below) *)
 Theorem C05_from_opchains_total_partial : forall (R : cring) (chains : list (chain R)) L idn,
   wf_chains L chains = true -> (1 <= L)%nat ->
   exists g, from_opchains cover_model chains L idn = Ok g /\ linked g = true /\
@@ -94,6 +99,34 @@ Theorem C05_from_opchains_total_partial : forall (R : cring) (chains : list (cha
             forall w, den g w = chains_den L idn chains w.
 Proof. exact from_opchains_total_model_cons. Qed.
 Print Assumptions C05_from_opchains_total_partial.
+
+(* length: every returned graph has L sites along the first-out-edge path (pytenet's OpGraph.length), any cover oracle *)
+Theorem C05_glength : forall (R : cring) cover (chains : list (chain R)) L idn g, (1 <= L)%nat ->
+  from_opchains cover chains L idn = Ok g -> glength g = Some L.
+Proof. exact from_opchains_glength. Qed.
+Print Assumptions C05_glength.
+
+(* headline, complete: no hypothesis on covers *)
+Theorem C05_from_opchains_total : forall (R : cring) (chains : list (chain R)) L idn,
+  wf_chains L chains = true -> (1 <= L)%nat ->
+  exists g, from_opchains cover_model chains L idn = Ok g /\ linked g = true /\
+            (forall fuel b, is_consistent_fuel fuel g = Some b -> b = true) /\
+            glength g = Some L /\
+            forall w, den g w = chains_den L idn chains w.
+Proof. exact from_opchains_total_model_len. Qed.
+Print Assumptions C05_from_opchains_total.
+
+(* (c) bond quantum numbers: every edge is one operator of one non-zero padded chain at a position k < L; the charges of its
+   end nodes are the chain's interleaved charges at k and k + 1 *)
+Theorem C05_edge_charges : forall (R : cring) cover (chains : list (chain R)) L idn g, (1 <= L)%nat ->
+  from_opchains cover chains L idn = Ok g ->
+  forall e, In e (g_edges g) ->
+    exists c k cf, In c chains /\ nonzero c = true /\ (k < L)%nat /\
+      e_opics e = [(nth k (padded_oids L idn c) 0, cf)] /\
+      (exists n, In n (g_nodes g) /\ n_id n = e_from e /\ n_q n = nth k (padded_qnums L c) 0) /\
+      (exists n, In n (g_nodes g) /\ n_id n = e_to e /\ n_q n = nth (S k) (padded_qnums L c) 0).
+Proof. exact from_opchains_charges. Qed.
+Print Assumptions C05_edge_charges.
 
 (* the regrouping lemma of the site partition (first-occurrence indexing, gamma accumulation) *)
 Theorem C05_site_partition_regroup : forall (R : cring) (hcs : list (hchain * R)) (F : unode -> hchain -> R),
@@ -160,6 +193,16 @@ Proof. vm_compute. repeat split; reflexivity. Qed.
 Example C05_nonvacuous_single :
   match from_opchains cover_model [@mkchain Zring [3] [0;0] 5 1%nat] 3 0 with
   | Ok g => linked g = true /\ is_consistent_fuel 200 g = Some true /\ glength g = Some 3%nat /\ den g [0;3;0] = 5
+  | Err _ => False
+  end.
+Proof. vm_compute. repeat split; reflexivity. Qed.
+(* charged chains (S+ S-, S- S+ shifted, Sz): the node charges are the interleaved chain charges *)
+Example C05_nonvacuous_charges :
+  match from_opchains cover_model [@mkchain Zring [1;-1] [0;2;0] 3 0%nat; @mkchain Zring [-1;1] [0;-2;0] 3 1%nat;
+                                   @mkchain Zring [2] [0;0] 5 1%nat] 3 0 with
+  | Ok g => glength g = Some 3%nat /\ map (fun n => (n_id n, n_q n)) (g_nodes g) = [(0, 0); (1, 2); (2, 0); (3, -2); (4, 0); (5, 0)] /\
+            map (fun e => (e_from e, e_to e, e_opics e)) (g_edges g) =
+              [(0, 1, [(1, 1)]); (0, 2, [(0, 1)]); (2, 3, [(-1, 1)]); (1, 4, [(-1, 3)]); (2, 4, [(2, 5)]); (3, 5, [(1, 3)]); (4, 5, [(0, 1)])]
   | Err _ => False
   end.
 Proof. vm_compute. repeat split; reflexivity. Qed.
